@@ -87,7 +87,12 @@ func (c *FnVC) instr(in ssa.Instruction) {
 	case *ssa.Defer:
 		c.deferInstr(x)
 	case *ssa.Go:
-		c.havocs = append(c.havocs, "go statement skipped "+c.srcAt(x.Pos()))
+		// The spawned function runs outside the model (no effect assumed, none excluded on
+		// this goroutine's heap - listed as an assumption). The go statement itself is an
+		// event: `at call go assert E` constrains the arguments handed over (receiver first),
+		// and the callee's `requires` are checked here in the current state.
+		c.havocs = append(c.havocs, "go statement: spawned function runs outside the model "+c.srcAt(x.Pos()))
+		c.goEvent(x)
 	case *ssa.Send:
 		// Sequential reading of a producer: a send hands the value to the consumer and has no
 		// effect on this goroutine's heap (what other goroutines do meanwhile is outside the
@@ -714,4 +719,53 @@ func (c *FnVC) closedWorld(at types.Type, ifid int, iv string) {
 		return
 	}
 	c.assume(fmt.Sprintf("(=> (implements (i_typ %s) %d) (or %s false))", iv, ifid, strings.Join(alts, " ")))
+}
+
+func (c *FnVC) goEvent(x *ssa.Go) {
+	cc := x.Common()
+	var args []string
+	var atys []types.Type
+	name := "go"
+	f := cc.StaticCallee()
+	if cc.IsInvoke() {
+		args = append(args, c.v(cc.Value))
+		atys = append(atys, cc.Value.Type())
+		name = "go " + cc.Method.FullName()
+	} else if f != nil {
+		name = "go " + f.String()
+	}
+	for _, a := range cc.Args {
+		args = append(args, c.v(a))
+		atys = append(atys, a.Type())
+	}
+	c.callN[name]++
+	tag := fmt.Sprintf("%s#%d", shortCallee(name), c.callN[name])
+	b := x.Block()
+	c.atAssertsIn(b, name, tag, args, atys)
+	if f == nil {
+		return
+	}
+	ct := c.P.contractFor(f).forCall()
+	if ct == nil {
+		return
+	}
+	env := map[string]envVal{}
+	for i, p := range f.Params {
+		if i < len(args) {
+			env[p.Name()] = envVal{args[i], p.Type()}
+			env[fmt.Sprintf("arg%d", i)] = envVal{args[i], p.Type()}
+		}
+	}
+	pre := c.newEval(f, env, copyHeap(c.cur), nil)
+	for i, r := range ct.Requires {
+		for j, cj := range splitConjDeep(r.Expr, 0) {
+			t, err := pre.boolExpr(cj)
+			if err != nil {
+				c.errorf("%s: requires of %s %q: %v", c.fnName(), name, r.Text, err)
+				continue
+			}
+			o := c.obligeNamed("pre", fmt.Sprintf("pre@%s.%d.c%d", tag, i+1, j+1), t, c.reach[b], "precondition of the spawned "+f.String()+": "+exprString(cj)+" "+c.srcAt(x.Pos()), nil)
+			o.Pos = x.Pos()
+		}
+	}
 }
